@@ -92,7 +92,9 @@ def _ext_geoms(tier):
     q = [dict(cb=14, kind="pair", at="straddle", thin=3),
          dict(cb=14, bg="u", kind="single", positions="quick"), dict(cb=14, bg="a", kind="single", positions="quick"),
          dict(cb=14, bg="z", kind="single", positions="quick"), dict(cb=14, kind="pair"),
-         dict(cb=16, bg="a", kind="single", positions="mid", backing="shorter")]
+         dict(cb=16, bg="a", kind="single", positions="mid", backing="shorter"),
+         # 256 KiB clusters: 16384 extended entries per L2 table; a pair at entry 8193 (beyond 64 KiB of table bytes / 8192 entries)
+         dict(cb=18, kind="pair", at="deep", thin=27)]
     if tier == "quick":
         return q
     t = [dict(cb=14, bg=bg, kind="single", positions="full") for bg in "uaz"]
@@ -330,6 +332,8 @@ def _case_ext(case, ctx):
     at = 0
     if g.get("at") == "straddle":
         at = cs // 16 - 1  # the pair sits on both sides of the end of the first extended-L2 table (16-byte entries)
+    elif g.get("at") == "deep":
+        at = 8193
     total = at + len(clusters) + 1
     size = total * cs - (sub // 2 if len(clusters) == 1 else 0)
     states = clusters + [{"kind": B.U, "sub": ["u"] * 32}]
@@ -372,7 +376,8 @@ def _case_ext(case, ctx):
         q = _open(ctx, case, img, None, backing_fh, subject, img.size > (8 << 20))
         if q is None:
             return
-        disk.materialize()
+        if g.get("at") != "deep":
+            disk.materialize()
         # per sub-cluster state/slot vectors for the non-triviality rule
         st = ["u"] * (32 * at) if at <= 64 else None
         if st is not None:
